@@ -21,11 +21,24 @@ ASSUMPTIONS = ['refpgp.sig (independent 5.2.4 implementation, self-tested on 62 
                'any exception from PGPy counts as "an error is raised"']
 
 SIG_MUTS = ['type', 'pkalg', 'halg', 'hashed-bit', 'hashed-len', 'sub-delete', 'sub-dup', 'sub-swap', 'sub-move-unhashed',
-            'sub-value', 'sub-add', 'mpi-bit', 'mpi-plus1', 'mpi-zero', 'mpi-swap', 'mpi-trunc', 'version']
-SUBJ_MUTS = ['doc-bit', 'doc-insert', 'doc-delete', 'doc-swap', 'uid-char', 'uid-append', 'uid-as-ua', 'key-time', 'key-material',
+            'sub-value', 'sub-add', 'mpi-bit', 'mpi-plus1', 'mpi-zero', 'mpi-swap', 'mpi-trunc', 'mpi-high', 'version']
+SUBJ_MUTS = ['doc-bit', 'doc-insert', 'doc-delete', 'doc-swap', 'text-eol', 'uid-char', 'uid-append', 'uid-as-ua', 'key-time', 'key-material',
              'key-alg', 'key-other', 'subkey-other', 'subkey-swap-roles', 'subkey-material']
 KEY_MUTS = ['key-otherkey-reissue', 'key-bit-reissue', 'key-primary-for-subkey']
 ALL_MUTS = SIG_MUTS + SUBJ_MUTS + KEY_MUTS
+_KEYSUBJ = ['key-time', 'key-material', 'key-alg', 'key-other']
+APPLICABLE = {
+    'doc': SIG_MUTS + ['doc-bit', 'doc-insert', 'doc-delete', 'doc-swap'] + KEY_MUTS,
+    'text': SIG_MUTS + ['doc-bit', 'doc-insert', 'doc-delete', 'doc-swap', 'text-eol', 'text-eol'] + KEY_MUTS,
+    'none': SIG_MUTS + KEY_MUTS,
+    'cert': SIG_MUTS + ['uid-char', 'uid-append', 'uid-as-ua'] + _KEYSUBJ + KEY_MUTS,
+    'key': SIG_MUTS + _KEYSUBJ + KEY_MUTS,
+    'subkey': SIG_MUTS + _KEYSUBJ + ['subkey-other', 'subkey-swap-roles', 'subkey-material'] + KEY_MUTS,
+}
+LABEL_KIND = {'doc': 'doc', 'doc-msg': 'doc', 'text': 'text', 'text-cleartext': 'text', 'standalone': 'none', 'timestamp': 'none',
+              'cert-10': 'cert', 'cert-11': 'cert', 'cert-12': 'cert', 'cert-13': 'cert', 'cert-ua': 'cert', 'cert-self': 'cert',
+              'attest': 'cert', 'rev-uid': 'cert', 'direct-self': 'key', 'direct-3rd': 'key', 'revoker': 'key', 'rev-key': 'key',
+              'bind': 'subkey', 'bind-signing': 'subkey', 'rev-subkey': 'subkey', 'pkbind-19': 'subkey'}
 
 TYPE_ALTS = [0x00, 0x01, 0x02, 0x10, 0x11, 0x12, 0x13, 0x16, 0x18, 0x19, 0x1F, 0x20, 0x28, 0x30, 0x40, 0x50]
 
@@ -37,10 +50,11 @@ def case_strategy(fast_only=False):
         'halg': st.sampled_from(sigkit.HASH_IDS),
         'label': st.sampled_from(sigkit.KINDS + ['pkbind-19']),
         'subkey': st.sampled_from([None, None, 'ed25519-1', 'ecdsa-p256-1', 'rsa1024-1']),
-        'mut': st.sampled_from(ALL_MUTS),
+        'mut': st.integers(0, 10 ** 6),
         'a': st.integers(0, 1 << 20),
         'b': st.integers(0, 1 << 20),
-        'doc': st.one_of(st.binary(max_size=80), st.sampled_from([b'', b'a', b'line one\nline two\r\nline three', b'\x00' * 64])),
+        'doc': st.one_of(st.binary(max_size=80), st.sampled_from([b'', b'a', b'line one\nline two\r\nline three', b'\x00' * 64]),
+                         st.text(alphabet='ab \n\r\t-', max_size=30).map(lambda x: x.encode())),
         'carrier': st.sampled_from(['detached', 'detached', 'inside']),
     })
 
@@ -155,11 +169,21 @@ def mutate(t, mut, a, b):
             mp[0], mp[1] = mp[1], mp[0]
         elif mut == 'mpi-trunc':
             mp[i] >>= 8
+        elif mut == 'mpi-high':
+            # same low-order octets, extra octets above the width the algorithm uses (modulus / group order size)
+            spub = rkeys.parse_public_body(t.signer_body)[0]
+            if spub.alg in rkeys.RSA_ALGS:
+                width = (spub.params['n'].bit_length() + 7) // 8
+            elif spub.alg == rkeys.DSA:
+                width = (spub.params['q'].bit_length() + 7) // 8
+            else:
+                width = (rkeys.CURVE_BITS.get(spub.curve, 256) + 7) // 8
+            mp[i] += (1 + b % 255) << (8 * (width + (b >> 8) % 3))
         m.sig = _rebuild_sig(s, mpis=mp)
         return m, mut, None
 
     if mut in SUBJ_MUTS:
-        if mut.startswith('doc-'):
+        if mut.startswith('doc-') or mut == 'text-eol':
             if t.kind not in ('doc', 'text'):
                 return None
             d = bytearray(t.doc)
@@ -179,6 +203,20 @@ def mutate(t, mut, a, b):
                 if t.kind == 'text' and d[pos] in (10, 13):
                     return None
                 del d[pos]
+            elif mut == 'text-eol':
+                # insert or delete a CR / LF octet; the reference decides whether the canonical text changes
+                if t.kind != 'text':
+                    return None
+                eols = [i for i, c in enumerate(d) if c in (10, 13)]
+                op = b % 4
+                if op == 0 and eols:
+                    d.insert(eols[a % len(eols)], 13)
+                elif op == 1:
+                    d.append(13 if a % 2 else 10)
+                elif op == 2 and eols:
+                    del d[eols[a % len(eols)]]
+                else:
+                    d.insert(a % (len(d) + 1), 13 if a % 3 else 10)
             elif mut == 'doc-swap':
                 if len(d) < 2:
                     return None
@@ -335,6 +373,10 @@ def _inside_carrier(t, m, where):
 
 def evaluate(case, rec):
     label = case['label']
+    if isinstance(case['mut'], int):
+        # the mutation is drawn from the classes applicable to this kind of subject (construction, not rejection)
+        app = APPLICABLE[LABEL_KIND[label]]
+        case = dict(case, mut=app[case['mut'] % len(app)])
     base_label = 'bind-signing' if label == 'pkbind-19' else label
     subkey = case['subkey'] if base_label in ('doc', 'doc-msg', 'text', 'text-cleartext', 'standalone', 'timestamp') else None
     if subkey == case['kid'] or (subkey and keypool.pool()[subkey]['alg'] == 1 and keypool.pool()[case['kid']]['alg'] == 1 and False):
@@ -416,27 +458,30 @@ def shard(arg):
 
 
 def matrix(arg):
-    """covering matrix: every kind x every mutation class at one key per algorithm family"""
-    fam, muts = arg
+    """covering matrix: every kind x every applicable mutation class x carrier x a few parameter variants, one key per family"""
+    fam, part, nparts, variants = arg
     rec = harness.Rec()
     i = 0
     for label in sigkit.KINDS + ['pkbind-19']:
-        for mut in muts:
+        for mut in sorted(set(APPLICABLE[LABEL_KIND[label]])):
             for carrier in ('detached', 'inside'):
-                i += 1
-                case = {'kid': fam, 'halg': sigkit.HASH_IDS[i % 3], 'label': label, 'subkey': None, 'mut': mut,
-                        'a': 7 * i + 3, 'b': 13 * i + 1, 'doc': b'The quick brown fox\njumps over\r\nthe lazy dog'.hex(), 'carrier': carrier}
-                evaluate(case, rec)
+                for v in range(variants * (3 if mut == 'text-eol' else 1)):
+                    i += 1
+                    if i % nparts != part:
+                        continue
+                    case = {'kid': fam, 'halg': sigkit.HASH_IDS[i % 3], 'label': label, 'subkey': None, 'mut': mut,
+                            'a': 7 * i + 3 + v, 'b': 13 * i + 1 + v * 5, 'doc': b'The quick brown fox\njumps over\r\nthe lazy dog\n'.hex(), 'carrier': carrier}
+                    evaluate(case, rec)
     return rec
 
 
 def run(tier, seed):
-    fams = ['ed25519-0', 'ecdsa-p256-0', 'dsa1024-0', 'rsa1024-0', 'ecdsa-p521-0', 'ecdsa-k256-0', 'ed25519-publead0', 'ecdsa-p384-0']
+    fams = ['ed25519-0', 'ecdsa-p256-0', 'dsa1024-0', 'rsa1024-0', 'ecdsa-p521-0', 'ecdsa-k256-0', 'ed25519-publead0', 'ecdsa-p384-0',
+            'rsa2048-2', 'dsa2048-1']
     tasks = []
-    for i, f in enumerate(fams if tier == 'thorough' else fams[:4] + fams[4:6]):
-        half = len(ALL_MUTS) // 2
-        tasks.append(('matrix', (f, ALL_MUTS[:half])))
-        tasks.append(('matrix', (f, ALL_MUTS[half:])))
+    for f in (fams if tier == 'thorough' else fams[:6]):
+        for part in range(2):
+            tasks.append(('matrix', (f, part, 2, 2 if tier == 'quick' else 6)))
     n = 260 if tier == 'quick' else 6000
     budget = 70 if tier == 'quick' else 900
     for i in range(16 if tier == 'quick' else 32):
